@@ -544,6 +544,10 @@ class Interp:
                 return sum(args[0], *args[1:])
             if n == 'abs' and len(args) == 1 and isinstance(args[0], int):
                 return abs(args[0])
+            if n == 'divmod' and len(args) == 2 and all(isinstance(a, int) for a in args) and args[1] != 0:
+                return divmod(args[0], args[1])
+            if n == 'bool' and len(args) == 1:
+                return self.truth(args[0])
             if n == 'type':
                 return Sym('type')
         if isinstance(fn, ast.Attribute):
@@ -594,7 +598,11 @@ class Interp:
             raise Raised('ValueError', e)
         if isinstance(v, Sym) and getattr(v, 'func', None) is not None:
             if v.func.key in getattr(self, 'opaque_funcs', ()):
-                return derived_call(v.func.name, args, kwargs)
+                r = derived_call(v.func.name, args, kwargs)
+                hook = getattr(self, 'opaque_attrs', {}).get(v.func.key)
+                if hook is not None:
+                    r.attrs = hook(args, kwargs)
+                return r
             return self.call(v.func, args, kwargs, depth=depth + 1)
         if isinstance(v, tuple) and v and v[0] == 'bound':
             return self.call(v[1], args, kwargs, selfobj=v[2], depth=depth + 1)
